@@ -123,6 +123,26 @@ func readBack(t testing.TB, b []byte) (names []string, present []bool, grids []m
 			}
 		}
 	}
+	// a Strict workbook (purl.oclc.org namespaces, conformance="strict") is read with the same structures: the two
+	// conformance classes differ in these URIs only
+	strict := false
+	for name, data := range files {
+		if bytes.Contains(data, []byte("http://purl.oclc.org/ooxml/")) {
+			strict = true
+			d := strings.ReplaceAll(string(data), "http://purl.oclc.org/ooxml/spreadsheetml/main", nsMain)
+			d = strings.ReplaceAll(d, "http://purl.oclc.org/ooxml/officeDocument/relationships", nsRel)
+			files[name] = []byte(d)
+		}
+	}
+	if strict {
+		wbFound := false
+		for _, data := range files {
+			wbFound = wbFound || bytes.Contains(data, []byte(`workbook conformance="strict"`))
+		}
+		if !wbFound {
+			t.Fatalf("Strict namespaces without conformance=\"strict\" on the workbook element")
+		}
+	}
 	var root rbRels
 	if err := xml.Unmarshal(files["_rels/.rels"], &root); err != nil {
 		t.Fatalf("_rels/.rels: %v", err)
